@@ -25,9 +25,13 @@ RulePool == <<
   Bin("add", Call(S("f"), A), Call(S("f"), Sym(S("s")))),
   If(Bin("gt", A, Val(I(1))), Call(S("g"), Val(I(9))), Val(St("small"))),
   Bin("sub", Val(VDur(DurMaxNs)), Val(VDur(DurMinNs))),          \* out of range (a panic here would lose every outcome)
-  Bin("add", Val(VInt(I128Max)), A) >>
+  Bin("add", Val(VInt(I128Max)), A),
+  \* two calls of the cacheable f whose arguments are long and differ only at their far end
+  VecE(<<Call(S("f"), A), Call(S("f"), Sym(S("l")))>>) >>
+LongStr(n, last) == VStr([i \in 1..n |-> IF i = n THEN 48 + last ELSE 97 + (i % 7)])
 
-Inputs == << VMap(<< <<S("a"), I(1)>> >>), VMap(<< <<S("a"), I(2)>>, <<S("zz"), I(5)>> >>), I(7), VNone, VMap(<< <<S("a"), VNone>> >>) >>
+Inputs == << VMap(<< <<S("a"), I(1)>> >>), VMap(<< <<S("a"), I(2)>>, <<S("zz"), I(5)>> >>), I(7), VNone, VMap(<< <<S("a"), VNone>> >>),
+            VMap(<< <<S("a"), LongStr(70, 1)>> >>) >>
 
 OkEcho == <<[r |-> "echo"]>>
 Fails(msg) == <<[r |-> "fail", msg |-> S(msg)]>>
@@ -39,7 +43,7 @@ Funcs(fp) == << [name |-> S("f"), cacheable |-> TRUE, suspend |-> 0, script |-> 
 
 RName(i) == <<114, 48 + i>>      \* "r1", "r2", ...
 RS == [rules |-> [i \in 1..Len(c.rules) |-> [name |-> RName(i), expr |-> RulePool[c.rules[i]]]],
-       funcs |-> Funcs(c.fp), syms |-> << <<S("s"), I(1)>> >>]
+       funcs |-> Funcs(c.fp), syms |-> << <<S("l"), LongStr(70, 2)>>, <<S("s"), I(1)>> >>]
 Input == Inputs[c.inp]
 
 Init == c \in {[rules |-> <<>>, inp |-> i, fp |-> p] : i \in 1..Len(Inputs), p \in 1..Len(Patterns)}
